@@ -39,7 +39,8 @@ CHECKS = {
                 "the oracle assumption, and the streaming round trip (roundtrip_stream: every chunking of the concatenated frames of any packet list, "
                 "also through the ring model with any initial capacity). The model's bit-level expressions and constants are regenerated from the source; every Pack/UnpackBytes result of "
                 "the real code is compared with the model over all types x verify x metadata x boundary body lengths x thresholds, and the round-trip "
-                "relation itself is evaluated on the real code (one-shot and streaming decoders).",
+                "relation itself is evaluated on the real code (one-shot and streaming decoders)."
+                " Round 2: protocolV1/V2.Pack, headerFromMetadata, UnpackBytes and Header.Metadata are translated from the Go source statement by statement on every run and proved equal to the model (pack_is_generated, unpackBytes_is_generated): both directions of the one-shot frame codec are regenerated, not only sampled.",
         "design_ref": "DESIGN.md section 7, C01",
         "note": CODEC_NOTE + "compress/gzip is an oracle; DEFLATE/CRC are the standard library (trusted, checked per sample with the standard reader).",
         "technique": "Lean 4 proof over a hand-written frame model + model/code differential run with gzip oracle values + regenerated expressions",
